@@ -35,7 +35,8 @@ UNMODELLED = [
     "vectorDistribution.LogisticRegression, Hmm/Mixture of vector and matrix emissions (C15)",
     "vectorDistribution.VectorId / VectorIid, matrixDistribution.VectorId / VectorIid (products over rows)",
     "NormalDistribution.EllipticCdf, MagicLogCdf; Mean/Variance accessors",
-    "dimension > 2 for the vector and matrix families; Categorical with K != 3",
+    "dimension > 3 and full (non-tridiagonal) 3x3 matrices for the vector and matrix families; SkewNormal at d = 3; "
+    "Categorical with K != 3",
     "ImportConfig / ExportConfig (C18)",
 ]
 TIERS = {
@@ -267,7 +268,7 @@ def run(ctx):
     ctx.extra["driver_counts"] = counts
     ctx.extra["cdf_trace"] = rsum
     ctx.extra["bounds"] = {"deep_grids": cfg["deep"], "clone_sets": cfg["clonesets"],
-                           "scalar_types": ["Float64", "Real64"], "dimension_vector_matrix": 2,
+                           "scalar_types": ["Float64", "Real64"], "dimension_vector_matrix": [1, 2, 3],
                            "tolerance": "LogPdf: 1e-10*(1+|v|) + 32*E(term); derivative: 1e-8*(1+|v|) + 64*E; "
                                         "CDF 1e-9 + 32*E; exact masses 1e-12 relative"}
     nontrivial = tot.get("eval:finite", 0) + tot.get("eval:neginf", 0) + tot.get("eval:boundary", 0)
@@ -310,7 +311,7 @@ def replay(ctx, path):
 MANIFEST = {
     "engine": "dist",
     "spec": "spec/Dist.tla",
-    "engine_text": "Dist.tla (contract of 33 distribution families over Expr.tla terms and Rat.tla rationals, life cycle "
+    "engine_text": "Dist.tla (contract of 45 distribution families (vector/matrix families and products at dimension 1, 2, 3) over Expr.tla terms and Rat.tla rationals, life cycle "
                    "New/SetParameters/Clone/Eval), DistTrace.tla (trace validation of recorded CDFs); Go driver "
                    "harness/cmd/dist, term evaluator harness/exprlib",
     "technique": "TLA+ contract model checked by TLC (validity, exact support classification, symbolic textbook log-density "
@@ -327,7 +328,7 @@ MANIFEST = {
             "support, compares the library's derivative w.r.t. every parameter with Expr!D of the term, requires agreement "
             "of Float64 and Real64, and checks get/set/clone round trips. CDFs recorded on increasing grids must be accepted "
             "by DistTrace.tla (monotone, in [0,1], limits 0 and 1, d/dx Cdf = pdf by the library's own AD, LogCdf = log Cdf). "
-            "Bounded: small rational grids, dimension 2 for vector/matrix families; normalisation of continuous families "
+            "Bounded: small rational grids, dimension 1-3 for vector/matrix families (3x3 tridiagonal); normalisation of continuous families "
             "is implied by matching the normalised textbook formula, not integrated.",
     "note": "Trusted: TLC, CommunityModules Json, Expr.tla differentiation table, Go math (leaf functions of the term "
             "evaluator), the driver's binding of family names to constructors. Known finding C14-iwishart-trace is "
